@@ -32,7 +32,7 @@ namespace RealLike
 @[simp] theorem real_pi : (RealLike.pi : ℝ) = Real.pi := rfl
 @[simp] theorem real_pow (x y : ℝ) : RealLike.pow x y = x ^ y := rfl
 @[simp] theorem real_abs (x : ℝ) : RealLike.abs x = |x| := rfl
-@[simp] theorem real_lit (n : Nat) : (@OfNat.ofNat ℝ n (RealLike.instOfNat n)) = (n : ℝ) := rfl
+theorem real_lit (n : Nat) : (@OfNat.ofNat ℝ n (RealLike.instOfNat n)) = (n : ℝ) := rfl
 @[simp] theorem real_add (a b : ℝ) : @HAdd.hAdd ℝ ℝ ℝ (@instHAdd ℝ RealLike.toAdd) a b = a + b := rfl
 @[simp] theorem real_sub (a b : ℝ) : @HSub.hSub ℝ ℝ ℝ (@instHSub ℝ RealLike.toSub) a b = a - b := rfl
 @[simp] theorem real_mul (a b : ℝ) : @HMul.hMul ℝ ℝ ℝ (@instHMul ℝ RealLike.toMul) a b = a * b := rfl
